@@ -943,7 +943,26 @@ func (c *Ctx) dischargeBound(s boundSite) (string, bool) {
 			if k, isK := constInt(v); isK && k == 0 {
 				return true
 			}
-			return c.atMostLenInv(s.f, v, s.x, map[ssa.Value]bool{}, 0)
+			if c.atMostLenInv(s.f, v, s.x, map[ssa.Value]bool{}, 0) {
+				return true
+			}
+			// "end of the interesting part": a merge of len(x) itself and of positions known to be below len(x) where
+			// they were picked (end := len(p); for i := ...; if found { end = i; break })
+			if ph, isPhi := v.(*ssa.Phi); isPhi {
+				okAll := len(ph.Edges) > 0
+				for i, e := range ph.Edges {
+					pb := ph.Block().Preds[i]
+					if l, isLen := e.(*ssa.Call); isLen && calleeName(l) == "builtin:len" && sameLen(l.Call.Args[0], s.x) {
+						continue
+					}
+					if c.belowLenDeep(s.f, e, s.x, pb, ph.Block(), 0) || c.atMostLenInv(s.f, e, s.x, map[ssa.Value]bool{}, 0) {
+						continue
+					}
+					okAll = false
+				}
+				return okAll
+			}
+			return false
 		}
 		if (s.low != nil || s.high != nil) && scanPos(s.low) && scanPos(s.high) {
 			if s.low == nil || s.high == nil || isZeroConst(s.low) {
